@@ -205,6 +205,7 @@ func judgeTree(k *run.K, t model.Tree) {
 	for _, how := range []string{"UnmarshalGeoJSON", "json.Unmarshal"} {
 		var back geom.Geometry
 		var derr error
+		snapIn := append([]byte(nil), b...)
 		if k.Lib("nopanic", func() {
 			if how == "UnmarshalGeoJSON" {
 				back, derr = geom.UnmarshalGeoJSON(b)
@@ -214,6 +215,7 @@ func judgeTree(k *run.K, t model.Tree) {
 		}) {
 			continue
 		}
+		k.Check("roundtrip-image", bytes.Equal(snapIn, b), "%s modified its input buffer", how)
 		if k.Check("roundtrip-image", derr == nil, "%s of own output failed: %v (%s)", how, derr, clip(string(b))) {
 			k.Check("roundtrip-image", model.Equal(treeOf(back), want), "%s(MarshalJSON(g)) differs from the format image: %s", how, model.Diff(treeOf(back), want))
 		}
